@@ -38,6 +38,13 @@ var c20AnsNames = []string{"unsolved", "solved", "error", "cancel+unsolved", "ca
 
 var errC20Eval = errors.New("evaluator failed (scripted)")
 
+// the evaluator's own failure may itself be (wrap) a context error - a sub-task of the evaluation that ran
+// into its own timeout or was cancelled by the evaluator - while the context of the run is still alive
+var errC20EvalKinds = []error{errC20Eval,
+	fmt.Errorf("evaluation sub-task: %w", context.Canceled),
+	fmt.Errorf("evaluation sub-task: %w", context.DeadlineExceeded)}
+
+
 type c20Config struct {
 	Runs      int  `json:"runs"`
 	Gens      int  `json:"generations"`
@@ -48,6 +55,7 @@ type c20Config struct {
 	Prealloc  int  `json:"prealloc"` // > 0: Experiment.Trials pre-allocated with Runs+Prealloc entries (a re-used experiment)
 	Stale     bool `json:"stale"`    // the pre-allocated entries hold the results of an earlier execution (two generations each, the first solved)
 	Nested    bool `json:"nested"`   // the options travel in a context whose parent context already carries other options
+	ErrKind   int  `json:"err_kind"` // what the evaluator's failure is: 0 a plain error, 1 wraps context.Canceled, 2 wraps context.DeadlineExceeded
 }
 
 // endableCtx is a context the harness can end at a chosen moment either as cancelled or as
@@ -86,6 +94,7 @@ type c20Harness struct {
 	seen    []c20Seen
 	startK  string
 	trialOf map[*experiment.Trial]bool
+	errKind int    // index into errC20EvalKinds
 	curGens int    // generations notified in the current trial
 	obsMsg  string // first discrepancy between a trial handed to the observer and the trial being run
 }
@@ -111,13 +120,13 @@ func (h *c20Harness) GenerationEvaluate(ctx context.Context, pop *genetics.Popul
 	switch a {
 	case ansError:
 		h.seen = append(h.seen, s)
-		return errC20Eval
+		return errC20EvalKinds[h.errKind]
 	case ansSolvedError:
 		g.Solved = true
 		g.Champion = pop.Organisms[0]
 		s.solved = true
 		h.seen = append(h.seen, s)
-		return errC20Eval
+		return errC20EvalKinds[h.errKind]
 	case ansCancelUnsolved, ansCancelSolved:
 		h.cancel()
 	}
@@ -187,7 +196,7 @@ func c20Reference(cfg c20Config, answers func(i int) int) (events []string, tria
 			i++
 			events = append(events, fmt.Sprintf("eval(%d,%d)", run, g))
 			if a == ansError || a == ansSolvedError {
-				return events, trials, true, errC20Eval, i
+				return events, trials, true, errC20EvalKinds[cfg.ErrKind], i
 			}
 			if a == ansCancelUnsolved || a == ansCancelSolved {
 				cancelled = true
@@ -250,7 +259,7 @@ func c20Run(cfg c20Config, script []int) (msg string, consumed []int, events []s
 		cancel()
 	}
 	start := xorSeed()
-	h := &c20Harness{script: script, cancel: cancel, startK: structureKey(start)}
+	h := &c20Harness{script: script, cancel: cancel, startK: structureKey(start), errKind: cfg.ErrKind}
 	e := experiment.Experiment{Id: 1}
 	if cfg.Prealloc > 0 {
 		e.Trials = make(experiment.Trials, cfg.Runs+cfg.Prealloc)
@@ -411,10 +420,10 @@ func runC20(c *Ctx) {
 					for _, pre := range []bool{false, true} {
 						cfgs = append(cfgs, c20Config{Runs: r, Gens: g, Observer: obs, Parallel: par, PreCancel: pre})
 						// the same with an expired deadline instead of a cancel, and on a re-used experiment
-						cfgs = append(cfgs, c20Config{Runs: r, Gens: g, Observer: obs, Parallel: par, PreCancel: pre, Deadline: true, Prealloc: 2, Nested: true})
+						cfgs = append(cfgs, c20Config{Runs: r, Gens: g, Observer: obs, Parallel: par, PreCancel: pre, Deadline: true, Prealloc: 2, Nested: true, ErrKind: 2})
 						// on an experiment that still holds the results of an earlier execution
 						if !pre {
-							cfgs = append(cfgs, c20Config{Runs: r, Gens: g, Observer: obs, Parallel: par, Prealloc: 1, Stale: true})
+							cfgs = append(cfgs, c20Config{Runs: r, Gens: g, Observer: obs, Parallel: par, Prealloc: 1, Stale: true, ErrKind: 1})
 						}
 					}
 				}
